@@ -935,10 +935,7 @@ func (c *FnCtx) builtin(fr *Frame, st *State, b *ssa.Builtin, cc *ssa.CallCommon
 		c.mapDelete(st, m, ref, key, ks)
 		return nil
 	case "close":
-		ch := args[0].(Sc).T
-		c.safety("closed", st, And(Not(Eq(ch, IntLit(0))), Not(c.chanField(st, "chan$closed", SBool, ch))))
-		c.chanSet(st, "chan$closed", SBool, ch, TTrue)
-		c.event(st, "close", ch)
+		c.doClose(fr, st, args[0].(Sc).T, site)
 		return nil
 	case "print", "println":
 		return nil
